@@ -623,9 +623,26 @@ func (vm *VM) execEq() error {
 		return err
 	}
 
-	result := vm.valuesEqual(a, b)
+	result := vm.operandsEqual(a, b)
 	vm.Push(BoolValue{Val: result})
 	return nil
+}
+
+// operandsEqual is the == of the language: like valuesEqual, except that an
+// int and a float compare numerically (1 == 1.0), as they do in the
+// interpreter, which coerces the int operand to float first.
+func (vm *VM) operandsEqual(a, b Value) bool {
+	switch av := a.(type) {
+	case IntValue:
+		if bv, ok := b.(FloatValue); ok {
+			return float64(av.Val) == bv.Val
+		}
+	case FloatValue:
+		if bv, ok := b.(IntValue); ok {
+			return av.Val == float64(bv.Val)
+		}
+	}
+	return vm.valuesEqual(a, b)
 }
 
 // execNe checks inequality
@@ -639,7 +656,7 @@ func (vm *VM) execNe() error {
 		return err
 	}
 
-	result := !vm.valuesEqual(a, b)
+	result := !vm.operandsEqual(a, b)
 	vm.Push(BoolValue{Val: result})
 	return nil
 }
